@@ -176,6 +176,7 @@ type Exec struct {
 	prog     *ssa.Program
 	cfg      *RunCfg
 	summ     map[string]*Summary
+	usage    map[string]bool // "<summarised function>|<receiver pattern>": alias (an input), zero (all-zero receiver), dirty (anything else)
 	funcs    map[string]bool
 	stubs    map[string]bool
 	zglobals map[string]bool
